@@ -55,6 +55,14 @@ CHECKS.update({
    note="Trusted base: the harness's YAML writer (JSON-style double-quoted scalars; bare form only for plain-safe or canonical numeric/boolean keys). dependentSchemas/dependencies have no effect on generation, so a broken fallback there is unobservable."),
 })
 
+CHECKS.update({
+ "C14": dict(cat="exploration", tech="runtime monitors: (a) function-boundary invariant on the real Identifierize/IdentifierFromFileName, enumerated over a character-class alphabet; (b) go/ast census of emitted fields/tags + binding round trip of compiled generated code",
+   text="(a) every string of length <= 3 (thorough 4) over one representative per Unicode character class x capitalization lists (incl. lower-case-initial entries) and file-name forms is sent to the real function; the result must be a valid exported Go identifier (exhaustive for that abstraction). (b) schemas whose sibling names, definition names, titles and file names collide after normalisation: fields distinct and exported, each tag carries exactly a property name, and documents with a value per key come back with every value under its own key.", ref="§4 C14"),
+ "C16": dict(cat="exploration", tech="relational runtime monitor over real CLI runs: go/ast-level comparison of the outputs of option sets that differ in exactly one option (plus go/types on the --only-models output)",
+   text="Held on every pair observed: random schemas x a random base option set x its six one-option neighbours; only-models => same type declarations, no func/var, still type-checks; tags => identical after erasing tags, tag keys = requested keys in order with one common value; naming options => identical declaration multiset after masking package-local identifiers; extra-imports => with-flag output minus YAML methods/import equals the without-flag output.", ref="§4 C16",
+   note="Trusted base: go/parser, go/printer, go/scanner, go/types. Constants of string enums are not counted as 'functions, methods or variables'. JSON behaviour with/without --extra-imports is covered by declaration equality (the JSON methods are textually identical)."),
+})
+
 NOT_YET = {}
 
 def main():
